@@ -83,6 +83,9 @@ impl Shared {
     fn rec(&self, r: Rec) {
         self.trace.lock().push(r);
     }
+    pub fn trace_len(&self) -> usize {
+        self.trace.lock().len()
+    }
     pub fn trace(&self) -> Vec<Rec> {
         self.trace.lock().clone()
     }
